@@ -200,6 +200,12 @@ def run(ctx):
         ("float", termgen.fbits(-0.0)), ("float", termgen.fbits(5e-324)), ("float", termgen.fbits(1.7976931348623157e308)),
         ("int", 2**2040), ("int", -(2**2048) + 1), etf.mklist([("int", c) for c in b"hello"]), etf.mklist([("int", 255)] * 65535),
     ]
+    # maps whose keys differ in one fine field only (a serial, a creation, the last digit of a big integer ...): nothing merges
+    for t in termgen.sibling_maps():
+        v = etf.denote(t)
+        datas.append(E(v, canonical=True))
+        for _ in range(ctx.budget(2, 10)):
+            datas.append(E(v))
     for v in specials:
         for _ in range(ctx.budget(8, 40)):
             datas.append(E(v))
